@@ -17,9 +17,10 @@ import (
 	"verif/harness/zoo"
 )
 
-const c04Layouts = 8
+const c04Layouts = 10
 
-var c04LayoutName = []string{"all-zero(nil map, nil slices, zero time, nil ptr)", "empty-map", "two-empty-slices", "time", "string+bytes", "map+slice", "object", "mixed"}
+var c04LayoutName = []string{"all-zero(nil map, nil slices, zero time, nil ptr)", "empty-map", "two-empty-slices", "time", "string+bytes", "map+slice", "object", "mixed",
+	"object-keyed map whose key is also a field", "[]T and []*T of one struct, the pointers shared with a field"}
 
 // applyLayout fills the filler fields that sit in front of the pointer fields.
 func applyLayout(n *zoo.FNode, layout, idx int) {
@@ -43,6 +44,13 @@ func applyLayout(n *zoo.FNode, layout, idx int) {
 		n.FS = []int32{1, 2}
 	case 6:
 		n.FP = &zoo.Inner{A: int32(idx), S: "p"}
+	case 8:
+		n.FP = &zoo.Inner{A: int32(idx), S: "key"}
+		n.KM = map[*zoo.Inner]int32{n.FP: int32(idx)}
+	case 9:
+		n.FP = &zoo.Inner{A: int32(idx), S: "shared"}
+		n.IV = []zoo.Inner{{A: 1, S: "v"}, {A: 2, S: "w"}}
+		n.IP = []*zoo.Inner{n.FP, nil, n.FP, {A: 3, S: "own"}}
 	case 7:
 		switch idx % 4 {
 		case 0:
@@ -79,6 +87,9 @@ func init() {
 	w := &zoo.FNode{FP: &zoo.Inner{}, FM: map[string]int32{"a": 1}, FS: []int32{1}, FS2: []string{"a"}}
 	w.A = w
 	w.Ls = []*zoo.FNode{w}
+	w.KM = map[*zoo.Inner]int32{w.FP: 1}
+	w.IV = []zoo.Inner{{A: 1}}
+	w.IP = []*zoo.Inner{w.FP}
 	w.MLs = map[string][]*zoo.FNode{"a": {w}}
 	w.LLs = [][]*zoo.FNode{{w}}
 	w.Mp = map[string]*zoo.FNode{"a": w}
@@ -154,6 +165,29 @@ func graphCheckWith(root *zoo.FNode, c04NM map[string]string) string {
 		return fmt.Sprintf("a ref ordinal on the wire denotes another container than intended:\n want %s\n  got %s", clipDiff(w, g), clipDiff(g, w))
 	}
 	return ""
+}
+
+// sliceCycleCheck: graphs in which a slice is reachable from inside itself through a container element (a
+// map value or list element of one of its own elements). Go cannot hold a reference to a list that is still
+// being read as a map value, so the decoder may refuse such a stream; what it must not do is accept it and
+// hand back another graph.
+func sliceCycleCheck(root *zoo.FNode) (refused bool, msg string) {
+	var b []byte
+	var err error
+	var out interface{}
+	if pv, st := guard(func() { b, err = hessian.ToBytes(root, copyNames(c04NM)) }); pv != nil || err != nil {
+		return false, fmt.Sprintf("encode: %v %v [%s]", err, pv, st)
+	}
+	if pv, st := guard(func() { out, err = hessian.ToObject(b, c04TM) }); pv != nil {
+		return false, fmt.Sprintf("decode panicked: %v [%s]", pv, st)
+	}
+	if err != nil {
+		return true, ""
+	}
+	if cerr := vcmp.Equal(root, out, c04NM); cerr != nil {
+		return false, fmt.Sprintf("the stream was accepted (nil error) but the decoded graph differs: %v; bytes %s", cerr, hexClip(b, 200))
+	}
+	return false, ""
 }
 
 // buildSmall decodes graph number code: n nodes, each pointer slot in {nil, n0..}.
@@ -378,12 +412,36 @@ func TestC04(t *testing.T) {
 				}
 			}
 		}
+		// in one case of eight: a slice that is reachable from inside itself through a map value of one of its
+		// own elements (lenient oracle: refusal or the same graph)
+		sliceCycle := false
+		if rapid.IntRange(0, 7).Draw(rt, "sliceCycle") == 0 {
+			for i, nd := range nodes {
+				if len(nd.Ls) > 0 && nd.Ls[0] != nil {
+					nd.Ls[0].MLs = map[string][]*zoo.FNode{"siblings": nd.Ls}
+					fmt.Fprintf(&sb, "n%d.Ls[0].MLs[siblings]==n%d.Ls (slice cycle) ", i, i)
+					sliceCycle = true
+					break
+				}
+			}
+		}
 		desc := zoo.Describe(nodes[0], 500)
 		c.set("nodes", n)
 		c.set("graph", desc)
 		c.set("shared_containers", sb.String())
 		r.Current("C04 random " + desc)
 		r.Eval()
+		if sliceCycle {
+			refused, msg := sliceCycleCheck(nodes[0])
+			r.Label("random:slice-cycle")
+			if refused {
+				r.Label("random:slice-cycle refused by the decoder")
+			}
+			if msg != "" {
+				failf(rt, c, "C04 random graph of %d nodes with a slice cycle: %s\n graph: %s\n shared containers: %s", n, msg, desc, sb.String())
+			}
+			return
+		}
 		msg := graphCheck(nodes[0])
 		if hasSharingOrCycle(nodes[0]) {
 			r.NonTrivial(av.Hash(zoo.Describe(nodes[0], 100000)))
